@@ -7,7 +7,8 @@
 (* the steppers per array, the step(t, dt) calls and the initial particle  *)
 (* data.  The probe steppers / equations the harness generates compute, on *)
 (* exact integer data:                                                     *)
-(*   py_stageM(a)         s[real] += 32;  (pyw) stepper.k += 1             *)
+(*   py_stageM(a)         (pop) add / retag / remove one particle;         *)
+(*                        s[real] += 32;  (pyw) stepper.k += 1             *)
 (*   stageM / initialize  s = 2 s + au + (M + 1) + 8 self.k;  v += 1;      *)
 (*                        x += mv          on every real index             *)
 (*   equation set i       au = 8 (i + 1) + number of neighbours (all       *)
@@ -31,9 +32,9 @@
 EXTENDS IntegratorProps, TLC
 
 CONSTANT Mut
-VARIABLES case, df, sj, pc, t, log, parts, karr, fresh, nd
+VARIABLES case, df, sj, pc, t, log, parts, karr, fresh, nd, nadd
 
-vars == <<case, df, sj, pc, t, log, parts, karr, fresh, nd>>
+vars == <<case, df, sj, pc, t, log, parts, karr, fresh, nd, nadd>>
 
 Ev(ev, a, m, i, tt, dt, n) ==
     [ev |-> ev, a |-> a, m |-> m, i |-> i, t |-> tt, dt |-> dt, n |-> n]
@@ -47,15 +48,54 @@ NArr == Len(case.arrs)
 Everyone(ps) == UNION {{<<a, p>> : p \in 1..Len(ps[a])} : a \in 1..Len(ps)}
 NN(ps, x) == Cardinality({q \in Everyone(ps) : Abs(ps[q[1]][q[2]].x - x) <= 1})
 
+\* real particles come first in every array; their number
+NRof(ps) == Cardinality({p \in 1..Len(ps) : ~ ps[p].g})
+NR(ai) == NRof(parts[ai])
+Without(ps, k) == [q \in 1..(Len(ps) - 1) |-> IF q < k THEN ps[q] ELSE ps[q + 1]]
+
+(***************************************************************************)
+(* What a population-changing py hook does to its array (the harness's     *)
+(* hooks do exactly this): "add" one real particle (uid 100, 101, ...),    *)
+(* turn the real particle with the smallest uid into a "ghost" (tag +      *)
+(* align_particles), "remove" the real particle with the largest uid.      *)
+(* The order of the particles inside the real / ghost part of the array    *)
+(* is not specified by pysph: data are compared by uid (TraceIntegrator).  *)
+(***************************************************************************)
+PopApply(ps, pop, ai) ==
+    LET nr == NRof(ps)
+        uids == {ps[p].uid : p \in 1..nr}
+    IN CASE pop = "add" ->
+              SubSeq(ps, 1, nr)
+              \o << [x |-> 20 + 8 * ai + nadd[ai], s |-> 3, v |-> 0, au |-> 0,
+                     g |-> FALSE, ts |-> FALSE, ta |-> FALSE,
+                     uid |-> 100 + nadd[ai]] >>
+              \o SubSeq(ps, nr + 1, Len(ps))
+         [] pop = "ghost" /\ nr > 0 ->
+              LET k == CHOOSE p \in 1..nr :
+                           \A u \in uids : ps[p].uid <= u
+              IN Without(ps, k) \o << [ps[k] EXCEPT !.g = TRUE] >>
+         [] pop = "remove" /\ nr > 0 ->
+              LET k == CHOOSE p \in 1..nr :
+                           \A u \in uids : ps[p].uid >= u
+              IN Without(ps, k)
+         [] OTHER -> ps
+
 (***************************************************************************)
 (* self.initialize() / self.stageM(): for each array in sorted-name order, *)
-(* the Python hook, then the compiled method on indices 0..nreal-1.        *)
+(* the Python hook, then the compiled method on the real particles AS THEY *)
+(* ARE AFTER THE HOOK (indices 0..nreal-1).                                *)
 (***************************************************************************)
-NLoop(ai) == IF "ghosts" \in Mut THEN Len(parts[ai]) ELSE case.arrs[ai].nreal
+MethOf(ai) == case.arrs[ai].meth[Op.m + 1]
+AfterHook(ai) ==
+    IF MethOf(ai).py THEN PopApply(parts[ai], MethOf(ai).pop, ai)
+    ELSE parts[ai]
+NLoop(ai) == IF "ghosts" \in Mut THEN Len(AfterHook(ai))
+             ELSE IF "countfirst" \in Mut THEN NR(ai)
+             ELSE NRof(AfterHook(ai))
 TSeen == IF "stale_t" \in Mut THEN Orig ELSE t
 
 StageEvents(ai) ==
-    LET d == case.arrs[ai].meth[Op.m + 1]
+    LET d == MethOf(ai)
         nm == case.arrs[ai].name
     IN (IF d.py THEN <<Ev("py", nm, Op.m, 0, TSeen, Dt, 0)>> ELSE <<>>)
        \o (IF d.loop
@@ -67,33 +107,38 @@ RECURSIVE Cat(_, _)
 Cat(f, n) == IF n = 0 THEN <<>> ELSE Cat(f, n - 1) \o f[n]
 
 KAfterPy(ai) ==
-    LET d == case.arrs[ai].meth[Op.m + 1]
+    LET d == MethOf(ai)
     IN IF d.py /\ d.pyw THEN karr[ai] + 1 ELSE karr[ai]
 
 StageParticles(ai) ==
-    LET d == case.arrs[ai].meth[Op.m + 1]
-        nr == case.arrs[ai].nreal
+    LET d == MethOf(ai)
+        ps == AfterHook(ai)
+        nr == NRof(ps)
         kread == IF df THEN case.arrs[ai].k0 ELSE KAfterPy(ai)
         hook(r, p) == IF d.py /\ p <= nr THEN [r EXCEPT !.s = r.s + 32]
                       ELSE r
-        body(r, p) == IF d.loop /\ p <= NLoop(ai)
+        body(r, p) == IF d.loop /\ p <= NLoop(ai) /\ p <= Len(ps)
                       THEN [r EXCEPT !.s = 2 * r.s + r.au + (Op.m + 1)
                                            + 8 * kread,
                                      !.v = r.v + 1,
                                      !.x = r.x + d.mv,
                                      !.ts = r.ts \/ r.ta]
                       ELSE r
-    IN [p \in 1..Len(parts[ai]) |-> body(hook(parts[ai][p], p), p)]
+    IN [p \in 1..Len(ps) |-> body(hook(ps[p], p), p)]
 
+PopChanged(ai) == AfterHook(ai) # parts[ai]
 Moved == \E ai \in 1..NArr :
-            LET d == case.arrs[ai].meth[Op.m + 1]
-            IN d.loop /\ d.mv # 0 /\ NLoop(ai) > 0
+            \/ MethOf(ai).loop /\ MethOf(ai).mv # 0 /\ NLoop(ai) > 0
+            \/ PopChanged(ai)
 
 Stage ==
     /\ Op.op = "stage"
     /\ log' = log \o Cat([ai \in 1..NArr |-> StageEvents(ai)], NArr)
     /\ parts' = [ai \in 1..NArr |-> StageParticles(ai)]
     /\ karr' = [ai \in 1..NArr |-> KAfterPy(ai)]
+    /\ nadd' = [ai \in 1..NArr |->
+                  IF MethOf(ai).py /\ MethOf(ai).pop = "add"
+                  THEN nadd[ai] + 1 ELSE nadd[ai]]
     /\ fresh' = (fresh /\ ~ Moved)
     /\ UNCHANGED nd
 
@@ -112,7 +157,7 @@ Accel ==
           /\ parts' =
                [ai \in 1..NArr |->
                   [p \in 1..Len(parts[ai]) |->
-                     IF p <= case.arrs[ai].nreal
+                     IF p <= NR(ai)
                      THEN [parts[ai][p] EXCEPT
                              !.au = IF fr
                                     THEN 8 * (Op.i + 1)
@@ -120,7 +165,7 @@ Accel ==
                                     ELSE 0,
                              !.ta = ~ fr]
                      ELSE parts[ai][p]]]
-    /\ UNCHANGED <<karr, nd>>
+    /\ UNCHANGED <<karr, nd, nadd>>
 
 (***************************************************************************)
 (* self.update_domain(): ghosts are re-created.  Without a periodic domain *)
@@ -132,7 +177,7 @@ Accel ==
 Ghosts(ai) ==
     LET g == IF nd + 1 <= Len(case.dom) THEN case.dom[nd + 1][ai] ELSE <<>>
         ok == {q \in 1..Len(g) : g[q].src >= 0
-                                  /\ g[q].src < case.arrs[ai].nreal}
+                                  /\ g[q].src < NR(ai)}
     IN [q \in 1..(IF ok = 1..Len(g) THEN Len(g) ELSE 0) |->
           [parts[ai][g[q].src + 1] EXCEPT !.x = @ + g[q].sh, !.g = TRUE]]
 
@@ -142,11 +187,11 @@ Domain ==
     /\ nd' = nd + 1
     /\ IF case.periodic
        THEN /\ parts' = [ai \in 1..NArr |->
-                           SubSeq(parts[ai], 1, case.arrs[ai].nreal)
+                           SubSeq(parts[ai], 1, NR(ai))
                            \o Ghosts(ai)]
             /\ fresh' = FALSE
        ELSE UNCHANGED <<parts, fresh>>
-    /\ UNCHANGED karr
+    /\ UNCHANGED <<karr, nadd>>
 
 (***************************************************************************)
 (* self.do_post_stage(stage_dt, n)                                         *)
@@ -154,7 +199,7 @@ Domain ==
 Post ==
     /\ Op.op = "post"
     /\ log' = Append(log, Ev("post", "", 0, 0, Orig + SDt(Op, Dt), Dt, Op.n))
-    /\ UNCHANGED <<parts, karr, fresh, nd>>
+    /\ UNCHANGED <<parts, karr, fresh, nd, nadd>>
 
 \* self.t after the op: do_post_stage sets it to orig_t + stage_dt
 TAfter == IF Op.op = "post" THEN Orig + SDt(Op, Dt) ELSE t
@@ -181,7 +226,9 @@ Start(c, d) ==
                   [p \in 1..Len(c.init[ai]) |->
                      [x |-> c.init[ai][p].x, s |-> c.init[ai][p].s,
                       v |-> c.init[ai][p].v, au |-> c.init[ai][p].au,
-                      g |-> c.init[ai][p].g, ts |-> FALSE, ta |-> FALSE]]]
+                      g |-> c.init[ai][p].g, ts |-> FALSE, ta |-> FALSE,
+                      uid |-> c.init[ai][p].uid]]]
+    /\ nadd = [ai \in 1..Len(c.arrs) |-> 0]
     /\ karr = [ai \in 1..Len(c.arrs) |-> c.arrs[ai].k0]
     /\ fresh = TRUE
     /\ nd = 0
